@@ -127,7 +127,7 @@ class C18(SeqProp):
     props_file = "Props/C18.v"
     focus = "mix"
     quick_cases = 250
-    thorough_cases = 1500
+    thorough_cases = 1000
     assumptions = [
         "the switched sequence is compared with the original on: channel names, slot kinds/times/targets, pulse samples and phases, EOM blocks, and the sampled amplitude/detuning/phase arrays",
     ]
@@ -221,6 +221,86 @@ class C18(SeqProp):
             except Exception as e:  # noqa: BLE001
                 bad(f"switch-register-raises:{type(e).__name__}", repr(e)[:200])
         return v
+
+
+def parametrized_strict_scenarios(tier, rng):
+    """strict switch of PARAMETRIZED sequences (no samples exist yet, so everything rests on the
+    comparison of the channel parameters): whenever switch_device(strict=True) returns, building the
+    original and the switched sequence with the same values must give the same timeline and samples.
+    Two sequence channels may sit on the same device channel (reusable device), only one in EOM mode."""
+    from pulser import Register, Sequence
+
+    from harness import seqimpl
+
+    v = []
+    base_eom = dict(mod_bandwidth=24.0, custom_buffer_time=None, limiting_beam="RED", controlled_beams=["BLUE"],
+                    multiple_beam_control=True, max_limiting_amp=188.0, intermediate_detuning=4398.0)
+
+    def chan(i, e, **kw):
+        c = dict(id=f"ch{i}", kind="Rydberg", addressing="Global", clock_period=4, min_duration=16, max_duration=10**8,
+                 mod_bandwidth=8.0, custom_phase_jump_time=None, max_amp=None, max_abs_detuning=None, min_avg_amp=0)
+        c.update(kw)
+        if e:
+            c["eom"] = dict(e)
+        return c
+
+    n = 0
+    for eom_p, vals in EOM_ALT.items():
+        for val in vals:
+            if base_eom.get(p_ := eom_p) == val:
+                continue
+            for layout in ("two-on-one-id", "two-ids", "single"):
+                for eom_on in ("second", "first"):
+                    if layout == "single" and eom_on == "first":
+                        continue
+                    n += 1
+                    if tier == "quick" and n % 3:
+                        continue
+                    e2 = dict(base_eom)
+                    e2[p_] = val
+                    devs = []
+                    for e in (base_eom, e2):
+                        chs = [chan(0, e)] + ([chan(1, e)] if layout == "two-ids" else [])
+                        devs.append(seqimpl.build_device(dict(channels=chs, dmms=[], max_sequence_duration=None, reusable=True, slm=False)))
+                    case = dict(scenario="parametrized-strict", eom_param=p_, value=val, layout=layout, eom_on=eom_on)
+                    with warnings.catch_warnings():
+                        warnings.simplefilter("ignore")
+                        try:
+                            seq = Sequence(Register.rectangle(1, 2, spacing=8, prefix="q"), devs[0])
+                            names = ["a"] if layout == "single" else ["a", "b"]
+                            seq.declare_channel("a", "ch0")
+                            if layout != "single":
+                                seq.declare_channel("b", "ch0" if layout == "two-on-one-id" else "ch1")
+                            x = seq.declare_variable("x", dtype=float)
+                            t = seq.declare_variable("t", dtype=int)
+                            em = names[-1] if eom_on == "second" else names[0]
+                            for nm in names:
+                                if nm == em:
+                                    seq.enable_eom_mode(nm, 4.0 + 0 * x, 1.0, 0.0)
+                                    seq.add_eom_pulse(nm, t, 0.0)
+                                    seq.delay(100, nm)
+                                    seq.add_eom_pulse(nm, 100, 0.5, correct_phase_drift=True)
+                                else:
+                                    seq.add(Pulse.ConstantPulse(t, x, 0.0, 0.0), nm)
+                        except Exception as e:  # noqa: BLE001
+                            v.append(Violation("parametrized-strict:cannot-build-scenario", repr(e)[:200], case))
+                            continue
+                        try:
+                            s2 = seq.switch_device(devs[1], strict=True)
+                        except Exception:  # noqa: BLE001
+                            continue  # "either raises ..."
+                        try:
+                            b1 = seq.build(x=1.5, t=200)
+                            b2 = s2.build(x=1.5, t=200)
+                            same = samples_equal(b1, b2) and [(n_, tuple((s_.ti, s_.tf) for s_ in cs.slots)) for n_, cs in b1._schedule.items()] == [
+                                (n_, tuple((s_.ti, s_.tf) for s_ in cs.slots)) for n_, cs in b2._schedule.items()]
+                        except Exception as e:  # noqa: BLE001
+                            v.append(Violation(f"parametrized-strict:build-raises:{type(e).__name__}", repr(e)[:200], case))
+                            continue
+                    if not same:
+                        v.append(Violation(f"parametrized-strict-switch-changed-samples:eom.{p_}",
+                                           f"strict switch of a parametrized sequence accepted a device whose EOM {p_} is {val!r}; built sequences differ", case))
+    return v
 
 
 ALT = {
@@ -359,4 +439,22 @@ def limits_of(seq, case):
     return v
 
 
+def _extra(self, tier, rng):
+    return parametrized_strict_scenarios(tier, rng)
+
+
+def _replay(self, payload):
+    case = payload.get("case") or {}
+    if isinstance(case, dict) and case.get("scenario") == "parametrized-strict":
+        import random
+
+        viols = [x for x in parametrized_strict_scenarios("thorough", random.Random(0)) if x.signature == payload.get("signature") and x.case == case]
+        for x in viols:
+            print("REPRODUCED:", x.signature, "-", x.what)
+        return 1 if viols else 0
+    return SeqProp.replay(self, payload)
+
+
+C18.extra_checks = _extra
+C18.replay = _replay
 CHECK = C18()
